@@ -227,6 +227,10 @@ struct Exporter {
     bool add_qr(const CDNS::GenericQueryResponse& g, const CDNS::BlockStatistics* st) {
         Hints h = Hints::of(params[cur.set]);
         MRec e = expect_qr(g, h, (h.qr >> 11) & 1);
+        // selftest canary: the reference model loses every 5th storable record
+        static const bool canary = getenv("VERIF_CANARY") && !strcmp(getenv("VERIF_CANARY"), "model-drops-record");
+        static unsigned canary_n = 0;
+        if (canary && !e.empty() && ++canary_n % 5 == 0) return true;
         if (!e.empty()) {
             cur.qr.push_back(e);
             cur.qr_alt.push_back(expect_qr(g, h, true));
